@@ -21,7 +21,9 @@ MANGLED = {'Aa': 'Aa', 'Bb': 'Bb', 'cc': 'CC', 'Dd': 'Dd', 'Zz': 'Zz', 'va': 'VA
 # much as `Ss`; a value assignment whose governor is such a reference must be generated or reported like any other
 TYPE_NAMES = ['Ss', 'S', 'AB', 'A1', 'A-B', 'Ab-C']
 TYPED_VALUES = [("SEQUENCE {{ a BOOLEAN }}", "{{ a TRUE }}"), ("SEQUENCE OF INTEGER", "{{ 1, 2 }}"), ("INTEGER", "5"), ("BOOLEAN", "TRUE"),
-                ("CHOICE {{ a BOOLEAN, b NULL }}", "a : TRUE"), ("ENUMERATED {{ p, q }}", "q"), ("BIT STRING", "'0101'B"), ("SET {{ a INTEGER }}", "{{ a 3 }}")]
+                ("CHOICE {{ a BOOLEAN, b NULL }}", "a : TRUE"), ("ENUMERATED {{ p, q }}", "q"), ("BIT STRING", "'0101'B"), ("SET {{ a INTEGER }}", "{{ a 3 }}"),
+                ("GeneralizedTime", '"19700101000000Z"'), ("UTCTime", '"700101000000Z"'), ("OCTET STRING", "'0A'H"), ("OBJECT IDENTIFIER", "{{ 1 2 3 }}"),
+                ("UTF8String", '"x"'), ("NULL", "NULL")]
 
 
 # whole pipeline (compile_to_string incl. CompileResult::fmt from MIR): several unsupported definitions of the SAME kind, whose
